@@ -10,7 +10,7 @@ T = 'gym_gridverse.envs.transition_functions:'
 SAR = {'state': 'State', 'action': 'Action', 'rng': 'Rng'}
 
 
-@contract(target=T + 'move_agent', args=SAR, kwonly=['rng'], props=['C01', 'C03', 'C08', 'C09', 'C10'])
+@contract(target=T + 'move_agent', args=SAR, kwonly=['rng'], props=['C02', 'C01', 'C03', 'C08', 'C09', 'C10'])
 def move_agent(state, action, rng):
     requires(in_grid(state.grid, state.agent.position))
     p0 = old(state.agent.position)
@@ -28,7 +28,7 @@ def move_agent(state, action, rng):
     ensures_native('multiset-preserved', lambda: ms(state.grid, state.agent.grid_object) == ms(g0, it0))
 
 
-@contract(target=T + 'turn_agent', args=SAR, kwonly=['rng'], props=['C01', 'C03', 'C08', 'C09', 'C10'])
+@contract(target=T + 'turn_agent', args=SAR, kwonly=['rng'], props=['C02', 'C01', 'C03', 'C08', 'C09', 'C10'])
 def turn_agent(state, action, rng):
     p0 = old(state.agent.position)
     o0 = old(state.agent.orientation)
@@ -42,7 +42,7 @@ def turn_agent(state, action, rng):
     ensures('no-draw', lambda: draws(rng) == 0)
 
 
-@contract(target=T + 'pickndrop', args=SAR, kwonly=['rng'], props=['C01', 'C03', 'C08', 'C09', 'C10'])
+@contract(target=T + 'pickndrop', args=SAR, kwonly=['rng'], props=['C02', 'C01', 'C03', 'C08', 'C09', 'C10'])
 def pickndrop(state, action, rng):
     requires(in_grid(state.grid, state.agent.position))
     p0 = old(state.agent.position)
@@ -64,7 +64,7 @@ def pickndrop(state, action, rng):
     ensures_native('multiset-preserved', lambda: ms(state.grid, state.agent.grid_object) == ms(g0, hand))
 
 
-@contract(target=T + 'actuate_door', args=SAR, kwonly=['rng'], props=['C01', 'C03', 'C08', 'C09', 'C10'])
+@contract(target=T + 'actuate_door', args=SAR, kwonly=['rng'], props=['C02', 'C01', 'C03', 'C08', 'C09', 'C10'])
 def actuate_door(state, action, rng):
     requires(in_grid(state.grid, state.agent.position))
     p0 = old(state.agent.position)
@@ -85,7 +85,7 @@ def actuate_door(state, action, rng):
     ensures('no-draw', lambda: draws(rng) == 0)
 
 
-@contract(target=T + 'actuate_box', args=SAR, kwonly=['rng'], props=['C01', 'C03', 'C08', 'C09', 'C10'])
+@contract(target=T + 'actuate_box', args=SAR, kwonly=['rng'], props=['C02', 'C01', 'C03', 'C08', 'C09', 'C10'])
 def actuate_box(state, action, rng):
     requires(in_grid(state.grid, state.agent.position))
     p0 = old(state.agent.position)
@@ -104,7 +104,7 @@ def actuate_box(state, action, rng):
     ensures('no-draw', lambda: draws(rng) == 0)
 
 
-@contract(target=T + 'teleport', args=SAR, kwonly=['rng'], props=['C01', 'C03', 'C08', 'C09', 'C10', 'C11'])
+@contract(target=T + 'teleport', args=SAR, kwonly=['rng'], props=['C02', 'C01', 'C03', 'C08', 'C09', 'C10', 'C11'])
 def teleport(state, action, rng):
     requires(in_grid(state.grid, state.agent.position))
     p0 = old(state.agent.position)
@@ -202,7 +202,7 @@ loop_invariant(target=T + 'move_obstacles', loop=0, kind='indexed', modifies=['s
                step={'rule': mo_step_rule, 'every-free-neighbour-possible': mo_step_support})(mo_inv)
 
 
-@contract(target=T + 'move_obstacles', args=SAR, kwonly=['rng'], props=['C01', 'C03', 'C08', 'C09', 'C10', 'C11'])
+@contract(target=T + 'move_obstacles', args=SAR, kwonly=['rng'], props=['C02', 'C01', 'C03', 'C08', 'C09', 'C10', 'C11'])
 def move_obstacles(state, action, rng):
     s0 = old(state)
     g0 = s0.grid
